@@ -47,8 +47,8 @@ func init() {
 			Desc: "registered handler " + n + ": gates, identification, decoding, dispatch, outcome->status table, no secret bytes in non-200 replies"})
 	}
 	propRegistry = append(propRegistry, c08)
-	c17 := &Property{ID: "C17", Pkgs: []string{"server"}, Bounds: map[string]string{"loop iterations": "4 (quick) / 6 (thorough), unwinding assertion", "events": "a write may happen before every generation read, every file read and upload may fail, cancellation may arrive at every wait"}}
-	c17.Harnesses = append(c17.Harnesses, &HarnessSpec{Name: "verifHarnessC17Backup", Pkg: "server", Stubs: serverStubs, Params: map[string]int{"rounds": 2}, ThoroughParams: map[string]int{"rounds": 4},
+	c17 := &Property{ID: "C17", Pkgs: []string{"server"}, Bounds: map[string]string{"loop iterations": "up to 3 (quick) / 4 (thorough) waits, unwinding assertion", "events": "a write may happen before every generation read, every file read and upload may fail, cancellation may arrive at every wait"}}
+	c17.Harnesses = append(c17.Harnesses, &HarnessSpec{Name: "verifHarnessC17Backup", Pkg: "server", Stubs: serverStubs, Params: map[string]int{"rounds": 2}, ThoroughParams: map[string]int{"rounds": 3},
 		UnwindFn: map[string]int{"(*github.com/tailscale/setec/server.Server).periodicBackup": 12}, ExpectReach: []string{"end"},
 		NoNative: "virtual time and an S3 model", Desc: "periodicBackup/doBackup over a ghost clock: whole-file uploads, change-driven, at most one per minute, blocking wait between generation reads, terminates on cancellation"})
 	propRegistry = append(propRegistry, c17)
